@@ -830,6 +830,9 @@ def _unrolled(fa: FA) -> FA:
             it = _static(fa, loop.iter, ids[0])
             if isinstance(it, (ast.Tuple, ast.List)) and it is not None and not any(isinstance(x, ast.Starred) for x in it.elts):
                 return [tg.id], [[x] for x in it.elts]
+            if isinstance(it, ast.Constant) and isinstance(it.value, str):
+                # a loop over the characters of a literal string
+                return [tg.id], [[ast.Constant(value=ch)] for ch in it.value]
             return None
         if not (isinstance(tg, (ast.Tuple, ast.List)) and all(isinstance(t, ast.Name) for t in tg.elts)):
             return None
